@@ -179,6 +179,13 @@ func (r *DocumentHandler) ResolveDocument(longFormDID string,
 		return nil, fmt.Errorf("%s: %s", badRequest, err.Error())
 	}
 
+	// the handler answers with the id <namespace>:<suffix>:<initial state>, so that is the only form it resolves:
+	// further segments between namespace and suffix would be a DID of another namespace
+	if shortFormDID != r.namespace+docutil.NamespaceDelimiter+uniquePortion {
+		return nil, fmt.Errorf("%s: did must be the configured namespace[%s] followed by a suffix and an initial state",
+			badRequest, r.namespace)
+	}
+
 	return r.resolveRequestWithInitialState(uniquePortion, longFormDID, createReq, pv)
 }
 
